@@ -190,8 +190,9 @@ def check_first_in_path(rep, prog):
                         if x.k == 'MemberExpr' and x.decl and x.decl.get('kind') == 'field' and 'root' in x.decl.get('name', ''):
                             up = x.up()
                             # `_root` passed as such, not `_root->children()` / `_root->vertex()`
-                            if not (up is not None and up.k in ('MemberExpr', 'CXXOperatorCallExpr') and up.c and
-                                    (up.c[0].strip_all() is x or (len(up.c) > 1 and up.c[1].strip_all() is x)) and up.k == 'MemberExpr'):
+                            is_get = up is not None and up.k == 'MemberExpr' and (up.fnref or {}).get('name') == 'get'     # _root.get(): the same node as a raw pointer
+                            if is_get or not (up is not None and up.k in ('MemberExpr', 'CXXOperatorCallExpr') and up.c and
+                                              (up.c[0].strip_all() is x or (len(up.c) > 1 and up.c[1].strip_all() is x)) and up.k == 'MemberExpr'):
                                 if not (up is not None and up.k == 'CXXOperatorCallExpr' and up.op == '->'):
                                     seed_root = True
         if covered and (seed_root or before):
@@ -260,7 +261,21 @@ def check_label_values(rep, prog):
                 if any('root' in nm and nm.startswith('_') for nm in names) and any(nm == 'root' for nm in names):
                     f = ex.f_atom('isroot')
                     return f if s_.op == '==' else ex.f_not(f)
+                # the popped node held in a local (taken from work.top() / back() / front()) compared with the tree's root (optionally .get())
+                if len(ops) == 2:
+                    for a_, b_ in ((ops[0], ops[1]), (ops[1], ops[0])):
+                        an = [x.decl.get('name', '') for x in a_.walk() if x.k == 'MemberExpr' and x.decl and x.decl.get('kind') == 'field']
+                        if any('root' in nm and nm.startswith('_') for nm in an) and popped_node(b_):
+                            f = ex.f_atom('isroot')
+                            return f if s_.op == '==' else ex.f_not(f)
             return None
+
+        def popped_node(e):
+            v_ = ex.var_of(e)
+            if v_ is None:
+                return False
+            d_ = ex.unique_def(fn, v_)
+            return d_ is not None and any(x.k == 'CXXMemberCallExpr' and x.callee and x.callee['name'] in ('top', 'back', 'front') for x in d_.walk())
 
         def value_kind(e):
             """'own' for <popped>.root->vertex() / a local holding it, 'child' for c->vertex() of an iterated child, 'carried' for <popped>.info"""
@@ -272,10 +287,18 @@ def check_label_values(rep, prog):
                     return value_kind(d)
             if s_.k == 'MemberExpr' and s_.decl and s_.decl.get('name') == 'info':
                 return 'carried'
+            if s_.k == 'MemberExpr' and s_.decl and s_.decl.get('name') in ('first', 'second') and s_.c and \
+                    any(x.k == 'CXXMemberCallExpr' and x.callee and x.callee['name'] in ('top', 'back', 'front') for x in s_.c[0].walk()):
+                return 'carried'      # the component that travels with the popped pair
             if s_.k == 'CXXMemberCallExpr' and s_.callee and s_.callee['name'] == 'vertex':
                 o = s_.object_arg()
                 txt = o.text(40) if o is not None else ''
                 if any(x.k == 'MemberExpr' and x.decl and x.decl.get('name') == 'root' for x in (o.walk() if o is not None else ())):
+                    return 'own'
+                inner = o.strip_all() if o is not None else None
+                if inner is not None and inner.k == 'CXXOperatorCallExpr' and inner.op == '->' and len(inner.c) > 1:
+                    inner = inner.c[1].strip_all()
+                if inner is not None and popped_node(inner):
                     return 'own'
                 return 'child'
             return None
@@ -490,6 +513,9 @@ def check_combine(rep, prog):
             okd = (is_adist(x1) and is_ew(x2)) or (is_adist(x2) and is_ew(x1))
         elif d0.k == 'BinaryOperator' and d0.op == '+':
             okd = True
+        if not okd and (ex.var_of(d0) in fn.param_ids or (d0.k in ('CallExpr', 'CXXMemberCallExpr') and d0.callee and d0.callee.get('in_repo'))):
+            rep.undecided('R12d', ctor, fn, what, 'the distance component is `%s`, supplied by the caller / a helper: outside the recognised shape' % d0.text(40))
+            continue
         if not okd:
             probs.append('the distance is `%s`, not combine(a.distance, weight(e))' % d0.text(40))
         c0 = ctor.c[1].strip_all()
